@@ -205,6 +205,13 @@ func runC19(c *core.Ctx) {
 		}
 		bad = append(bad, string(up))
 	}
+	for pos := 0; pos < len(good); pos++ {
+		for v := 0; v < 256; v++ {
+			if byte(v) != good[pos] {
+				bad = append(bad, good[:pos]+string([]byte{byte(v)})+good[pos+1:])
+			}
+		}
+	}
 	bad = append(bad, "", "iota", "iota1", "1", good+"q", good[:len(good)-1], strings.ToUpper(good), " "+good, good+" ")
 	for _, s := range bad {
 		if c19JudgeParse(c, s, "spelling") {
